@@ -23,3 +23,4 @@ LEVEL_TEXT = ("Proof (logic) + correspondence (runtime). lean/BarterModel/Props/
 LEVEL_NOTE = ("Trusted: Lean kernel; axioms propext/Classical.choice/Quot.sound; hand-written model tied to the code by sampled correspondence against the real engine, runners, channel and StateReplicaManager "
               "(200 quick / 5000 thorough). Hypotheses for order replication: exchange states only, FreshCids. Components not in the model (connectivity, balances, market data, statistics) are compared directly "
               "between real engine and real replica.")
+SUBCHECKS = ["C10C"]
